@@ -60,6 +60,16 @@ def gen_spec(rng, profile=None, uid=None):
     uid = uid if uid is not None else next_uid()
     n = _choice_range(rng, P["n_states"])
     sids = [f"s{i}" for i in range(n)]
+    if P.get("state_ids") and rng.random() < P.get("p_state_ids", 0.5):
+        # unusual state identifiers (names that mean something to a renderer or to the library)
+        odd = rng.sample(P["state_ids"], min(len(P["state_ids"]), n))
+        for k, name in enumerate(odd):
+            if rng.random() < 0.6:
+                sids[rng.randrange(n) if k else 0] = name
+        seen = []
+        for k, s_ in enumerate(sids):
+            seen.append(s_ if s_ not in seen else f"s{k}")
+        sids = seen
     finals = set()
     for s in sids[1:]:
         if rng.random() < P["p_final"] and len(finals) < n - 2:
@@ -73,9 +83,9 @@ def gen_spec(rng, profile=None, uid=None):
                       "guards": [], "validators": [], "refs": {g: [] for g in GROUPS_T}})
 
     # reachability: arborescence
-    placed = ["s0"]
+    placed = [sids[0]]
     for s in sids[1:]:
-        parents = [p for p in placed if p not in finals] or ["s0"]
+        parents = [p for p in placed if p not in finals] or [sids[0]]
         add_t(rng.choice(parents), s, [rng.choice(events)])
         placed.append(s)
     nonfinal = [s for s in sids if s not in finals]
@@ -282,7 +292,7 @@ def gen_spec(rng, profile=None, uid=None):
     allow = P["allow"] if P["allow"] is not None else (rng.random() < 0.3)
     states = []
     for k, s in enumerate(sids):
-        states.append({"id": s, "initial": s == "s0", "final": s in finals})
+        states.append({"id": s, "initial": s == sids[0], "final": s in finals})
     return {
         "uid": uid, "states": states, "events": events, "transitions": trans,
         "state_refs": state_refs, "guards": guards, "validators": validators, "cbs": cbs,
